@@ -25,9 +25,16 @@ def build_exe(stage):
             fh = ex.submit(stage.compile, os.path.join(VERIF, "harness", "c57.cc"), extra=flags + ["-fno-access-control"])
             fo = ex.submit(stage.compile_many, UNDER_TEST, extra=flags)
             objs = [fh.result()] + fo.result()
-        built["c57"] = stage.link_like("tests/testRock", objs, os.path.join(stage.work, "c57"),
-                                       drop=("tests/stub_store_rebuild.o",),
-                                       extra=["tests/stub_store_digest.o"] if os.path.exists(stage.path("src/tests/stub_store_digest.o")) else [])
+        # tests/stub_store_client.o also carries a stub storeRebuildStart(): link a copy with weak symbols so that the real
+        # store_rebuild.o wins; tests/stub_store_digest.o provides store_digest / storeDigestNoteStoreReady
+        import subprocess
+        weak = []
+        for name in ("stub_store_client", "stub_store_digest"):
+            w = os.path.join(stage.work, "c57_weak_%s.o" % name)
+            subprocess.run(["objcopy", "--weaken", stage.path("src/tests/%s.o" % name), w], check=True)
+            weak.append(w)
+        built["c57"] = stage.link_like("tests/testRock", objs + weak, os.path.join(stage.work, "c57"),
+                                       drop=("tests/stub_store_rebuild.o", "tests/stub_store_client.o"))
     return built["c57"]
 
 
